@@ -297,6 +297,7 @@ func c19Pkg(r *ev.Run, pc *C19Pkg) error {
 			}
 		}
 	}
+	c19Abandoned(r, pkg, pc, disp, ht, ops)
 	if len(ops) == 0 {
 		return nil
 	}
@@ -792,4 +793,130 @@ func c19KV(r *ev.Run, pc *C19Pkg) error {
 		}
 	}
 	return nil
+}
+
+
+// trackedReader is a caller-owned request stream: it counts reads that happen after the client call returned.
+type trackedReader struct {
+	left     int
+	returned atomic.Bool
+	late     atomic.Int64
+	reads    atomic.Int64
+}
+
+func (t *trackedReader) Read(p []byte) (int, error) {
+	t.reads.Add(1)
+	time.Sleep(200 * time.Microsecond) // a slow source: the window in which the transport gives up
+	if t.returned.Load() {
+		t.late.Add(1)
+	}
+	if t.left <= 0 {
+		return 0, io.EOF
+	}
+	n := len(p)
+	if n > 512 {
+		n = 512
+	}
+	if n > t.left {
+		n = t.left
+	}
+	for i := 0; i < n; i++ {
+		p[i] = 'x'
+	}
+	t.left -= n
+	return n, nil
+}
+
+// abortTransport gives up after a few bytes of the body, closing it as every RoundTripper must.
+type abortTransport struct{}
+
+func (abortTransport) Do(req *http.Request) (*http.Response, error) {
+	if req.Body != nil {
+		buf := make([]byte, 4)
+		io.ReadFull(req.Body, buf)
+		req.Body.Close()
+	}
+	return nil, fmt.Errorf("verif: transport gave up mid-body")
+}
+
+// c19Abandoned: streamed request bodies that the transport abandons. Once the generated client method has returned,
+// nothing of ogen may still read the caller's stream (the caller may rewind and reuse it): every operation whose
+// request is a struct with an io.Reader member is called with a slow counting reader through a transport that fails
+// after four bytes; reads observed after the return are reported.
+func c19Abandoned(r *ev.Run, pkg *Package, pc *C19Pkg, disp Dispatcher, ht reflect.Type, ops []OpInfo) {
+	cl, err := pkg.NewClient(disp, ClientConfig{URL: "http://verif.local", HTTP: abortTransport{}})
+	if err != nil {
+		return
+	}
+	clv := reflect.ValueOf(cl)
+	for _, op := range ops {
+		hm, ok := ht.MethodByName(op.Name)
+		cm := clv.MethodByName(op.Name)
+		if !ok || !cm.IsValid() {
+			continue
+		}
+		// ctx, req[, params]: the request must be a struct (or pointer to one) with an io.Reader field
+		if hm.Type.NumIn() < 2 {
+			continue
+		}
+		reqT := hm.Type.In(1)
+		st := reqT
+		if st.Kind() == reflect.Pointer {
+			st = st.Elem()
+		}
+		if st.Kind() != reflect.Struct {
+			continue
+		}
+		fi := -1
+		for i := 0; i < st.NumField(); i++ {
+			if st.Field(i).Type == tReader && st.Field(i).IsExported() {
+				fi = i
+			}
+		}
+		if fi < 0 {
+			continue
+		}
+		late, calls := int64(0), 0
+		for k := 0; k < 25; k++ {
+			tr := &trackedReader{left: 64 << 10}
+			holder := reflect.New(st)
+			holder.Elem().Field(fi).Set(reflect.ValueOf(tr))
+			in := []reflect.Value{reflect.ValueOf(context.Background())}
+			if reqT.Kind() == reflect.Pointer {
+				in = append(in, holder)
+			} else {
+				in = append(in, holder.Elem())
+			}
+			okArgs := true
+			for i := 2; i < hm.Type.NumIn(); i++ {
+				b := &Builder{Pkg: pkg, Rng: r.Rand("c19-abandoned", pc.Origin, op.Name), Tame: true, MaxDepth: 2, NonEmpty: true}
+				v, ok := b.Validated(hm.Type.In(i), 6)
+				if !ok {
+					okArgs = false
+					break
+				}
+				in = append(in, v)
+			}
+			if !okArgs || cm.Type().NumIn() != len(in) && !cm.Type().IsVariadic() {
+				break
+			}
+			func() {
+				defer func() { recover() }()
+				cm.Call(in)
+			}()
+			tr.returned.Store(true)
+			time.Sleep(3 * time.Millisecond)
+			late += tr.late.Load()
+			calls++
+			r.Eval(1)
+		}
+		if calls > 0 {
+			r.Count("abandoned_stream_calls", calls)
+			r.Distinct("abandoned|" + pc.Origin + "|" + op.Name)
+		}
+		if late > 0 {
+			r.Violate("concurrent/request-stream-read-after-call-returned", fmt.Sprintf("%s %s: %d reads of the caller's request stream happened after the client call had returned (transport gave up after 4 bytes, %d calls)", pc.Origin, op.Name, late, calls),
+				map[string]any{"origin": pc.Origin, "operation": op.Name, "late_reads": late, "calls": calls})
+		}
+	}
 }
